@@ -113,6 +113,23 @@ def obligations():
     init = [n for n in ast.walk(fn) if isinstance(n, ast.Assign) and norm(n.targets[0]) == (catvar or "cat_dissim") and norm(n.value) == "None"]
     ob("cat-dissim/absolute-is-the-default-component", len(init) == 1, "without -d (or with -d absolute) no component is passed: the default absolute one", len(init))
 
+    # --- per-file state: the component is re-initialised (to None) at the top level of the per-file loop, before the -d chain, and the
+    #     chain is guarded by the option only - nothing computed for one input file is reused for the next
+    cgc = find_calls(fn, "compute_gamma")
+    loops = [n for n in ast.walk(fn) if isinstance(n, ast.For) and cgc and any(c is cgc[0] for c in ast.walk(n))]
+    per_file = loops[-1] if loops else None       # the innermost loop holding the compute_gamma call
+    ok_pf = False
+    if per_file is not None and len(init) == 1:
+        top = list(per_file.body)
+        pos_init = [i for i, st in enumerate(top) if st is init[0]]
+        chain = [i for i, st in enumerate(top) if isinstance(st, ast.If) and norm(st.test).startswith("args.cat_dissim ==")]
+        sets = [n for n in ast.walk(per_file) if isinstance(n, ast.Assign) and norm(n.targets[0]) == (catvar or "cat_dissim") and n is not init[0]]
+        guards_ok = all(all(g.startswith("args.cat_dissim ==") for g, _ in guard_chain(fn, n)) for n in sets)
+        ok_pf = bool(pos_init) and bool(chain) and pos_init[0] < chain[0] and guards_ok
+    ob("cat-dissim/rebuilt-for-each-input-file", ok_pf,
+       "inside the per-file loop the component is first reset to None, then built from THIS file's categories under tests of -d only",
+       {"loop": norm(per_file.target) if per_file is not None else None})
+
     # --- compute_gamma
     cg = find_calls(fn, "compute_gamma")
     kw = {k.arg: norm(k.value) for c in cg for k in c.keywords}
